@@ -661,6 +661,50 @@ def jac_apply(repo, out):
             out.ok(fn, st, f'{len(uf)} fwd update(s) matched by adjoint rev updates')
 
 
+# --------------------------------------------------------------------------- rev transfer scaling pair
+class _Only:
+    """Forward to `out` only the verdicts about one function (used to reuse a clause of another module)."""
+
+    def __init__(self, out, qualname):
+        self._out, self._qn = out, qualname
+
+    def _mine(self, where):
+        qn = getattr(where, 'qualname', None) or (where[1] if isinstance(where, tuple) else None)
+        return qn == self._qn
+
+    def ok(self, where, node, why=''):
+        if self._mine(where):
+            self._out.ok(where, node, why)
+
+    def bad(self, where, node, why, key=None):
+        if self._mine(where):
+            self._out.bad(where, node, why, key)
+
+    def unsure(self, where, node, why):
+        if self._mine(where):
+            self._out.unsure(where, node, why)
+
+    def count(self, *a, **k):
+        pass
+
+    def note(self, *a, **k):
+        pass
+
+
+@rule('C02.transfer_scaling', floor=2)
+def transfer_scaling(repo, out):
+    """Group._transfer: the input vector is put back into the physical state after every scaled transfer.
+
+    In reverse mode the transfer accumulates the (normalised) input vector into the outputs; leaving it
+    normalised afterwards makes the next reverse product read inputs in the wrong state, so the rev operator
+    is no longer the adjoint of the fwd one.  The pairing clause is the one C08.who decides (reused)."""
+    try:
+        from . import C08 as _c08
+    except Exception as e:   # pragma: no cover
+        raise AnalysisError(f'C08 rule module not importable: {e}')
+    _c08.who(repo, _Only(out, 'Group._transfer'))
+
+
 # --------------------------------------------------------------------------- rev-mode solution cache
 RHSC = 'openmdao/solvers/linear/linear_rhs_checker.py'
 
@@ -1288,6 +1332,7 @@ selftest(
     Twin('twin-vjpcache-key-order', 'openmdao/components/jax_implicit_comp.py',
          "inhash = (inputs.get_hash(), outputs.get_hash()) + tuple(self._discrete_inputs.values())",
          "inhash = tuple(self._discrete_inputs.values()) + (outputs.get_hash(), inputs.get_hash())"),
+    Mutant('transfer-scaling-rev-unpaired', 'openmdao/core/group.py', "                if xfer._has_input_scaling:\n                    vec_inputs.scale_to_phys(mode='rev')\n", "", 'C02.transfer_scaling'),
     Twin('twin-transfer-early-return', _DT,
          "        if mode == 'fwd':\n            # this works whether the vecs have multi columns or not due to broadcasting\n            in_vec.set_val(out_vec.asarray()[self._out_inds.flat], self._in_inds)\n\n        else:  # rev\n            out_vec.iadd(np.bincount(self._out_inds, in_vec._get_data()[self._in_inds],\n                                     minlength=out_vec._data.size))",
          "        if mode != 'fwd':\n            w = in_vec._get_data()[self._in_inds]\n            g = np.bincount(self._out_inds, weights=w, minlength=out_vec._data.size)\n            out_vec.iadd(g)\n            return\n        vals = out_vec.asarray()[self._out_inds.flat]\n        in_vec.set_val(vals, self._in_inds)"),
